@@ -1289,6 +1289,9 @@ def evaluate(t, env, memo=None):
             r = list(enumerate(evaluate(t.args[0], env, memo), *[evaluate(a, env, memo) for a in t.args[1:]]))
         elif op == "zip":
             r = list(zip(*[evaluate(a, env, memo) for a in t.args]))
+        elif op == "zipl":
+            import itertools as _it
+            r = list(_it.zip_longest(*[evaluate(a, env, memo) for a in t.args[1:]], fillvalue=evaluate(t.args[0], env, memo)))
         elif op == "range":
             r = range(*[evaluate(a, env, memo) for a in t.args])
         elif op == "call:itertools.chain.from_iterable" and len(t.args) == 1:
